@@ -872,7 +872,7 @@ pub fn run(tier: Tier, seed: u64, known: &Known) -> PropRun {
     run.stats.merge(st);
     run.failure = fl;
     if run.failure.is_none() {
-        let part = Part { name: "interrupted", cases: tier.pick(1_500, 60_000), min_len: 32, max_len: 600, max_shrink: 200, threads: threads() };
+        let part = Part { name: "interrupted", cases: tier.pick(1_500, 20_000), min_len: 32, max_len: 600, max_shrink: 200, threads: threads() };
         let (st, fl) = run_part(&part, seed, known, check_interrupted);
         run.stats.merge(st);
         run.failure = fl;
@@ -888,7 +888,7 @@ pub fn run(tier: Tier, seed: u64, known: &Known) -> PropRun {
         run.failure = fl;
     }
     if run.failure.is_none() {
-        let part = Part { name: "deep", cases: tier.pick(1_400, 60_000), min_len: 24, max_len: 600, max_shrink: 200, threads: threads() };
+        let part = Part { name: "deep", cases: tier.pick(1_400, 20_000), min_len: 24, max_len: 600, max_shrink: 200, threads: threads() };
         let (st, fl) = run_part(&part, seed, known, check_deep);
         run.stats.merge(st);
         run.failure = fl;
